@@ -389,6 +389,11 @@ func (w *_node) LookupBySegment(seg datamodel.PathSegment) (datamodel.Node, erro
 func (w *_node) LookupByNode(key datamodel.Node) (datamodel.Node, error) {
 	switch w.Kind() {
 	case datamodel.Kind_Map:
+		if tk, ok := key.(schema.TypedNode); ok {
+			// A typed key (such as the struct-typed keys this map's own iterator yields)
+			// is looked up by its string representation, as LookupByString expects.
+			key = tk.Representation()
+		}
 		s, err := key.AsString()
 		if err != nil {
 			return nil, err
